@@ -82,7 +82,7 @@ func genC03(t *rapid.T) c03Case {
 			j := rapid.IntRange(0, len(open)-1).Draw(t, "xw")
 			c.Ops = append(c.Ops, c03Op{K: "close", W: open[j]})
 			open = append(open[:j], open[j+1:]...)
-		case k == 11 && len(open) == 0:
+		case (k == 11 || k == 13) && len(open) == 0:
 			a, b := ts("da"), ts("db")
 			if a > b {
 				a, b = b, a
@@ -93,6 +93,23 @@ func genC03(t *rapid.T) c03Case {
 			c.Ops = append(c.Ops, c03Op{K: "delete", Start: a, End: b})
 		case k == 12 && len(open) == 0:
 			c.Ops = append(c.Ops, c03Op{K: "reopen"})
+		}
+	}
+	// half of the scripts end with every writer closed and deletes over what they left
+	// (deletes that span several whole domains need three or more of them)
+	if rapid.Bool().Draw(t, "tail_deletes") {
+		for _, w := range open {
+			c.Ops = append(c.Ops, c03Op{K: "close", W: w})
+		}
+		for d := rapid.IntRange(1, 3).Draw(t, "ntail"); d > 0; d-- {
+			a, b := ts("ta"), ts("tb")
+			if a > b {
+				a, b = b, a
+			}
+			if a == b {
+				b++
+			}
+			c.Ops = append(c.Ops, c03Op{K: "delete", Start: a, End: b})
 		}
 	}
 	return c
